@@ -195,7 +195,7 @@ pub fn scenarios(tier: &str) -> Vec<Scenario> {
             opts: opts.clone(),
             starts: vec![("S and Ctx deployed".into(), base.clone())],
             alphabet: alpha.clone(),
-            bounds: Bounds { depth: if thorough { 5 } else { 4 }, dev: vec![1, 1], dev_total: 2 },
+            bounds: Bounds { depth: if thorough { 4 } else { 3 }, dev: vec![1, 1], dev_total: 2 },
             weight: 1.0,
             network: net.into(),
             traces: net != "signet",
